@@ -93,6 +93,25 @@ def calls_in_order(fn):
     return out
 
 
+def positional_test_is_lt(fn):
+    """the `elif` that takes a positional value tests `arg_index < len(self.args)` - in whatever equivalent spelling
+    (`not arg_index >= len(self.args)`, `len(self.args) > arg_index`): decided by evaluating the test for all small values"""
+    for node in ast.walk(fn):
+        if isinstance(node, ast.If) and 'len(self.args)' in ast.unparse(node.test) and 'arg_index' in ast.unparse(node.test):
+            names = {n.id for n in ast.walk(node.test) if isinstance(n, ast.Name)} - {'len', 'self'}
+            if names != {'arg_index'}:
+                return False
+            code = compile(ast.Expression(node.test), '<test>', 'eval')
+
+            class S:
+                def __init__(self, n): self.args = (0,) * n
+            try:
+                return all(bool(eval(code, {'len': len, 'self': S(n), 'arg_index': i})) == (i < n) for i in range(4) for n in range(4))
+            except Exception:
+                return False
+    return False
+
+
 def gen_calltables(repo):
     df = ast.parse(src(repo, DF))
     fc = ast.parse(src(repo, FC))
@@ -284,7 +303,7 @@ def gen_calltables(repo):
     dstar_ann = '_assert_param_has_type_annotation' in dstar_seq
     dstar_complete = '_assert_annotation_is_complete' in dstar_seq
     ctp = ast.unparse(find_func(fc, '_check_type_param', 'FunctionCall'))
-    param_kw_fallback = 'elif key in self.kwargs' in ctp and 'elif arg_index < len(self.args)' in ctp
+    param_kw_fallback = 'elif key in self.kwargs' in ctp and positional_test_is_lt(find_func(fc, '_check_type_param', 'FunctionCall'))
 
     L = [HEADER.format(rel=f'{DF}, {FC}, {PD}, {RK}, {CD}'), 'namespace PedVerif.Gen.CallTables\n']
     L.append('/-- FUNCTIONS_THAT_REQUIRE_KWARGS -/')
@@ -354,6 +373,19 @@ def gen_calltables(repo):
     L.append(f'def starChecksBoundValuesOnly : Bool := {lean_bool(star_binds)}')
     L.append(f'def dstarRequiresAnnotation : Bool := {lean_bool(dstar_ann)}')
     L.append(f'def dstarRequiresComplete : Bool := {lean_bool(dstar_complete)}')
+    # the receiver of a method: `self._instance = self.args[0] if self.args else self.kwargs.get('self')` (K.m(self=obj) is a legal call), and
+    # `not_yet_check_kwargs` does not offer that keyword to the **kwargs check
+    recv_kw = False
+    for n in ast.walk(init):
+        if isinstance(n, ast.Assign) and ast.unparse(n.targets[0]) == 'self._instance' and isinstance(n.value, ast.IfExp) \
+                and ast.unparse(n.value.test) in ('self.args', 'self._args', 'args') and ast.unparse(n.value.body) in ('self.args[0]', 'self._args[0]', 'args[0]') \
+                and ast.unparse(n.value.orelse) in ("self.kwargs.get('self')", "self._kwargs.get('self')", "kwargs.get('self')"):
+            recv_kw = True
+    nyc = ast.unparse(find_func(fc, 'not_yet_check_kwargs', 'FunctionCall'))
+    dstar_skips = "receiver = 'self' if self.func.is_instance_method else None" in nyc and 'k != receiver' in nyc
+    L.append('/-- the receiver of a method may be passed by keyword (`K.m(self=obj, …)`): `__init__` takes it from `kwargs` when there is no positional argument; `not_yet_check_kwargs` leaves that keyword out -/')
+    L.append(f'def receiverMayBeKeyword : Bool := {lean_bool(recv_kw)}')
+    L.append(f'def dstarSkipsReceiverKeyword : Bool := {lean_bool(dstar_skips)}')
     L.append('/-- `_check_type_param`: a parameter that may be passed positionally falls back to the keyword, then to "unfilled" -/')
     L.append(f'def positionalParamFallsBack : Bool := {lean_bool(param_kw_fallback)}')
     L.append('\nend PedVerif.Gen.CallTables')
